@@ -28,7 +28,9 @@ VALID = ['a', 'A', 'a.b', 'readme.txt', 'README.TXT', 'Readme.Txt', 'readme.TXT'
          '日本語.txt', 'Ελληνικά αρχεία', 'кириллица.bin', 'emoji \U0001F600.bin', '\U0001F600' * 127, 'a\U0001F600' * 85,
          "it's (ok) #1 & co.$$$", 'x+y=z,ok;[1]', 'café', 'CAFÉ', 'file.', 'é', '~', 'a~1', 'ABCDEF~1.TXT', 'abcdef~1',
          'LONGFI~1.TXT', 'longfi~2.txt', 'trailing.dot.x', 'UPPER.lower', 'lower.UPPER', '12345678.123', '123456789.12', 'a b.c d',
-         'Àb.txt', 'ÉCOLE.txt', 'Öl.TXT', 'þORN.Ñu', 'ÆÐ×Þ.dat', 'mixÉd.É']
+         'Àb.txt', 'ÉCOLE.txt', 'Öl.TXT', 'þORN.Ñu', 'ÆÐ×Þ.dat', 'mixÉd.É',
+         # a long name whose UPPER-CASED form looks like an alias with a numeric tail, then a name that would get that alias
+         'straß~2', 'strassenbahn', 'groß~1.txt', 'grossartig.txt']
 VALID = [n for n in VALID if not n.endswith(('.', ' '))]
 INVALID = ['', ' ', 'a*b', 'a?b', 'a/b\\c', 'a\\b', 'a:b', 'a<b', 'a>b', 'a|b', 'a"b', 'trailing ', 'trailing.', ' leading',
            'n' * 256, 'new\nline', 'tab\tname', 'nul\0name', 'abc\n', '\U0001F600' * 128]
